@@ -1,6 +1,6 @@
 SPECIFICATION Spec
 CONSTANTS
-  RangeCfgs = {"r248", "r26", "r3"}
+  RangeCfgs = {"r248", "r3"}
   OvModes = {TRUE}
   TNeg = 4
   TMax = 8
@@ -12,6 +12,6 @@ CONSTANTS
   MaxOps = 0
   EmitMode = "all"
 VIEW View
-INVARIANTS TypeOK PlanLegal KindOK NeverMixesClasses NewestAndFailedExcluded RegularNotStarved MergedOK EmitState
+INVARIANTS TypeOK AllOf EmitState
 PROPERTIES RankDecreases NoWiden
 CHECK_DEADLOCK FALSE
